@@ -206,6 +206,10 @@ def run(tier, seed, ck=None):
         hb = sorted([n['n'] for n in r.nodes if n['op'] == 'var' and n['n'].startswith('hexbyte!')], key=lambda s: int(s.split('!')[1]))
         sub = type(r)(dict(r.d, paths=rest))
         decode_obligations(ck, sub, tag, l // 2, hb)
+    if own:
+        # the verdicts above are about single calls from the initial package state: histories (observe, scribble on returned slices, mutate, observe) must not change them
+        from props import hidden
+        hidden.embed(ck, tier, ('scalar',), 'C07', 'a scalar encoding')
     return ck.finish() if own else None
 
 
